@@ -31,7 +31,7 @@ macro_rules! c13_ghost_support {
         pub(crate) enum Op {
             Extract, // a = salt, b = ikm
             Expand,  // a = prk,  b = info, len = requested length
-            Hash,    // a = data
+            Hash,    // b = data
             Mac,     // a = key,  b = data
         }
 
@@ -286,7 +286,7 @@ macro_rules! c13_ghost_support {
             }
 
             fn hash(&self, data: &[u8]) -> Result<::alloc::vec::Vec<u8>, GhostError> {
-                let tag = self.record(Op::Hash, data, &[], 0)?;
+                let tag = self.record(Op::Hash, &[], data, 0)?;
                 Ok(::alloc::vec![tag; HASH_LEN])
             }
 
@@ -569,7 +569,7 @@ use mls_rs_core::extension::ExtensionList;
 // context byte string of length <= 4 (values symbolic).  `None` stands for Length = KDF.Nh.
 #[kani::proof]
 #[kani::stub(zeroize::optimization_barrier, noop_barrier)]
-#[kani::unwind(24)]
+#[kani::unwind(12)]
 fn c13_kdf_expand_with_label_bounded_4() {
     let p = GhostProvider::new();
     let secret = any_bytes::<4>();
@@ -606,7 +606,7 @@ fn c13_kdf_expand_with_label_bounded_4() {
 // a provider failure is reported as MlsError::CryptoProviderError, after exactly one call
 #[kani::proof]
 #[kani::stub(zeroize::optimization_barrier, noop_barrier)]
-#[kani::unwind(24)]
+#[kani::unwind(12)]
 fn c13_kdf_expand_with_label_provider_error_bounded_4() {
     let p = GhostProvider::failing_at(0);
     let secret = any_bytes::<4>();
@@ -626,7 +626,7 @@ fn c13_kdf_expand_with_label_provider_error_bounded_4() {
 // DeriveSecret(Secret, Label) = ExpandWithLabel(Secret, Label, "", KDF.Nh)
 #[kani::proof]
 #[kani::stub(zeroize::optimization_barrier, noop_barrier)]
-#[kani::unwind(24)]
+#[kani::unwind(12)]
 fn c13_kdf_derive_secret_bounded_4() {
     let p = GhostProvider::new();
     let secret = any_bytes::<4>();
@@ -675,7 +675,7 @@ fn check_epoch_secrets(
 
 #[kani::proof]
 #[kani::stub(zeroize::optimization_barrier, noop_barrier)]
-#[kani::unwind(32)]
+#[kani::unwind(12)]
 fn c13_from_epoch_secret() {
     let p = GhostProvider::new();
     let epoch_secret = any_exact::<NH>();
